@@ -1207,7 +1207,7 @@ End DtypeProofs.
 
 (* on the measured platform (kernels for float32 / float64 only): all pairings succeed except QR with bfloat16 factors *)
 Theorem dtype_pairings_on_platform m pdt fdt nz :
-  refresh_succeeds (refresh_tags lapack_kernel lapack_kernel true m pdt fdt nz) = negb (match m, fdt, nz with MQR, BF16, true => true | _, _, _ => false end).
+  refresh_succeeds (refresh_tags lapack_kernel lapack_kernel true m pdt fdt nz) = negb (match m, fdt, nz with MQR, BF16, true | MQR, F16, true => true | _, _, _ => false end).
 Proof. destruct m, pdt, fdt, nz; reflexivity. Qed.
 
 Theorem C03_sched_checkb_sound freq start t has_grad :
